@@ -45,6 +45,7 @@ type CaseFile struct {
 	NondetSeq  []NondetItem           `json:"nondet_seq"`
 	EnvInts    []string               `json:"env_ints,omitempty"`
 	AddrMap    map[string]string      `json:"address_map,omitempty"`
+	SigResults []bool                 `json:"sig_results,omitempty"`
 	Stores     []StoreCase            `json:"stores"`
 	Params     map[string]interface{} `json:"params,omitempty"`
 	Bank       []BankCase             `json:"bank,omitempty"`
@@ -486,6 +487,15 @@ func (m *Machine) buildCase(label string, model map[string]string) *CaseFile {
 			}
 		}
 	}
+	for _, t := range m.ufArgs["validcid"] {
+		app := m.in.UF("validcid", SBool, t)
+		if v, ok := model[termKey(app)]; ok && strings.TrimSpace(v) == "true" && !t.IsConst() {
+			raw := parseSmtString(model[termKey(t)])
+			if _, taken := ev.addr[raw]; !taken {
+				ev.addr[raw] = "bafkreigh2akiscaildcqabsyg3dfr6chu3fgpregiymsck7e7aqa4s52zy"
+			}
+		}
+	}
 	for _, t := range m.ufArgs["validdec"] {
 		app := m.in.UF("validdec", SBool, t)
 		if v, ok := model[termKey(app)]; ok && strings.TrimSpace(v) == "true" && !t.IsConst() {
@@ -519,6 +529,9 @@ func (m *Machine) buildCase(label string, model map[string]string) *CaseFile {
 	}
 	for name, v := range m.paramInit {
 		cf.Params[name] = ev.jsonOf(v, under(m.paramProto[name]).(*types.Pointer).Elem())
+	}
+	for _, g := range m.w.ghost {
+		cf.SigResults = append(cf.SigResults, g.ok)
 	}
 	for _, b := range m.w.bankInit {
 		cf.Bank = append(cf.Bank, BankCase{Addr: ev.strOf(b.addr), Denom: ev.strOf(b.denom), Amount: ev.intOf(b.val).String()})
